@@ -249,6 +249,12 @@ def run(ctx):
         ctx.check("tweaks", "%s/input-order" % name, okh, "%s = %s" % (name, det),
                   "%s hashes %s; expected [tweak %r, %s]" % (name, det, tweak, "leaf" if nargs == 1 else "left, right"), ctx.loc(fn))
 
+    # the inclusion path of every position is complete only if the tree structure rules of C04 hold
+    import audit_facts
+    chk = audit_facts.Checker(ctx, W)
+    okm, whym = chk.check("merkle_level_structure")
+    ctx.check("merkle-structure", "paths-and-root-agree", okm, whym, "the Merkle path / root construction is inconsistent, so issued paths do not recompute the signed root: " + whym)
+
     # ------------------------------------------------------------------ (5) response assembly
     mr = ctx.fn(sm.MAKE_RESPONSE)
     ev = W.ev(mr.path)
